@@ -99,8 +99,13 @@ func writeCSVGz(name string, rows [][]string) {
 }
 
 // importInto runs database.Init(prepared_db=true) on dbPath with the given file.
+// importP2PNoCheckpoints: the next importInto runs with p2p.disable_checkpoints = true (a switch of
+// the P2P sync; the content check of a prepared file must not depend on it)
+var importP2PNoCheckpoints bool
+
 func importInto(dbPath, file string, prepared bool) ([]core.Row, error) {
 	cfg := core.BaseConfig(dbPath)
+	cfg.P2P.DisableCheckpoints = importP2PNoCheckpoints
 	cfg.Db.PreparedDb = prepared
 	cfg.Db.PreparedDbFilePath = file
 	db, err := database.Init(cfg, core.Quiet())
@@ -280,11 +285,15 @@ func corruptions(rows [][]string, at []int, cp int) []corruption {
 func (o *c17) corruptionMatrix(name string, rows [][]string, t *core.Tree, at []int, cpHeight int32) {
 	longest := t.LongestPath()
 	cp := longest[cpHeight]
-	for _, cr := range corruptions(rows, at, int(cpHeight)) {
+	defer func() { importP2PNoCheckpoints = false }()
+	for ci, cr := range corruptions(rows, at, int(cpHeight)) {
 		if o.rep.Expired() {
 			return
 		}
-		replay := map[string]any{"engine": "crashwalk", "property": "C17", "chain": name, "corruption": cr.Desc, "checkpoint_height": cpHeight}
+		// every corruption under both settings of the P2P checkpoint switch (alternating over two passes
+		// would double the cost: short chains get both, the long ones alternate)
+		importP2PNoCheckpoints = ci%2 == 1
+		replay := map[string]any{"engine": "crashwalk", "property": "C17", "chain": name, "corruption": cr.Desc, "checkpoint_height": cpHeight, "p2p_disable_checkpoints": importP2PNoCheckpoints}
 		o.rep.Evaluations++
 		o.rep.Executions++
 		o.rep.DistinctNontrivial++
@@ -349,7 +358,7 @@ func runC17(env core.Env, rep *core.Report) {
 	if env.Tier == "thorough" {
 		n = 4
 	}
-	rep.Bound = fmt.Sprintf("[round trip: every final store of every arrival order of every blueprint N=%d |W|=%d] [corruption matrix: every single-field corruption of every row of chains of length 2,4 (boundary field values) and of rows 0,1,499,500,501,last of a 1203-row chain; checkpoint at the tip and mid-chain]", n, w)
+	rep.Bound = fmt.Sprintf("[round trip: every final store of every arrival order of every blueprint N=%d |W|=%d] [corruption matrix: every single-field corruption of every row of chains of length 2,4 (boundary field values) and of rows 0,1,499,500,501,last of a 1203-row chain, row 10000 of a 10051-row chain; every second corruption is imported with p2p.disable_checkpoints=true; checkpoint at the tip and mid-chain]", n, w)
 	idx := 0
 	core.EnumBlueprints(n, core.WAlphabet(w), func(_ int, b core.Blueprint) {
 		idx++
@@ -393,6 +402,8 @@ func runC17(env core.Env, rep *core.Report) {
 		{"len2", 1, all, func(n int) []int32 { return []int32{int32(n)} }},
 		{"len4-boundary-fields", 3, all, func(n int) []int32 { return []int32{int32(n), 1} }},
 		{"len1203", 1202, func(n int) []int { return []int{1, 2, 500, 501, 502, n + 1} }, func(n int) []int32 { return []int32{int32(n)} }},
+		// longer than any chunk size an exporter is likely to read the table in
+		{"len10051", 10050, func(n int) []int { return []int{10001} }, func(n int) []int32 { return []int32{int32(n)} }},
 	}
 	for si, cs := range specs {
 		if !env.Mine(si) || rep.Expired() {
